@@ -45,7 +45,7 @@ ASSUMPTIONS = ["std::vector / std::stack of libstdc++ 12 are the reference for s
 TRUSTED = ["hand model Tetl/C01/Model.lean + Step.lean tied to the source by the correspondence run (R1) on every run",
            "spec Tetl/C01/Spec.lean validated against libstdc++ (R2) on every run"]
 _P = "Tetl.C01.Props."
-_STEP = [_P + "step_refines", _P + "history_refines"]
+_STEP = [_P + "step_refines", _P + "step_refines_spec", _P + "history_refines"]
 THEOREMS = {
     "push": _STEP, "push_rv": _STEP, "emplace_back": _STEP, "pop": _STEP,
     "insert": _STEP + [_P + "insertFill_refines", _P + "rotate_eq"],
